@@ -1,4 +1,5 @@
 import ScrapliModel.Log
+import ScrapliModel.LogApi
 open Scrapli Scrapli.Log
 
 /-!
@@ -20,6 +21,11 @@ open Scrapli Scrapli.Log
   pyfmt <template> <args>                                           -> ok <str> | err <kind>
   mode <str>                                                        -> ok <str> | err <kind>
   extras <host> <port> <uid>                                        -> <host?> <port?> <uid?>
+  api <variant> <level0> <s|c> <old files> <ops>                    -> <files> <raised> <handlers> <errors>
+        a whole history of the logging API (ScrapliModel/LogApi.lean `runApi`): s = logging.shutdown(), c = close()
+        old files = "." or id:content,…      ops = "." or op|op|…
+        op = E<file id or ~>,<level number>,<callerInfo>,<bufferLog>,<mode str>  |  R<levelno>:<record>
+        files = "." or id:content,… for every path named in the request (ascending); errors = logging errors of all handlers
 -/
 
 def decStr (s : String) : Option Str := do
@@ -110,6 +116,37 @@ def exceptStr (e : Except PyErr Str) : String :=
   | .ok s => s!"ok {encStr s}"
   | .error k => s!"err {errKind k}"
 
+def decApiOp (s : String) : Option ApiOp :=
+  match s.toList with
+  | 'E' :: rest =>
+    match (String.ofList rest).splitOn "," with
+    | [f, lvl, c, b, m] => do
+      let file ← if f == "~" then some none else f.toNat?.map some
+      pure (.enable { file := file, level := ← lvl.toNat?, callerInfo := ← decBool c, bufferLog := ← decBool b, mode := ← decStr m })
+    | _ => none
+  | 'R' :: rest =>
+    match (String.ofList rest).splitOn ":" with
+    | [n, r] => do pure (.emit (← decRec r) (← n.toNat?))
+    | _ => none
+  | _ => none
+
+def decOld (s : String) : Option (List (Nat × Str)) :=
+  if s == "." then some [] else
+  (s.splitOn ",").mapM fun x =>
+    match x.splitOn ":" with
+    | [i, c] => do pure (← i.toNat?, ← decStr c)
+    | _ => none
+
+def insertSorted (n : Nat) : List Nat → List Nat
+  | [] => [n]
+  | a :: t => if n < a then n :: a :: t else if n == a then a :: t else a :: insertSorted n t
+
+def apiFiles (old : List (Nat × Str)) (ops : List ApiOp) : List Nat :=
+  let ids := old.map (·.1) ++ ops.filterMap fun
+    | .enable a => a.file
+    | .emit _ _ => none
+  ids.foldl (fun acc n => insertSorted n acc) []
+
 def handleLine (line : String) : String :=
   match line.trimAscii.toString.splitOn " " with
   | ["handler", v, buffered, caller, header, append, old, recs] =>
@@ -129,6 +166,18 @@ def handleLine (line : String) : String :=
       let s := chanRun sk { msg := [], host := h, port := p, uid := u } { dest := old } ops
       s!"{Hex.encode s.dest} {if s.handle then "1" else "0"} {encEmitted s.recs}"
     | _, _, _, _, _, _ => "bad-op"
+  | ["api", v, lvl, e, old, ops] =>
+    let en : Option ApiEnd := if e == "s" then some .shutdown else if e == "c" then some .closeAll else none
+    let opl : Option (List ApiOp) := if ops == "." then some [] else (ops.splitOn "|").mapM decApiOp
+    match decVariant v, lvl.toNat?, en, decOld old, opl with
+    | some v, some lvl, some en, some old, some opl =>
+      let files0 : Nat → Str := fun f => (old.lookup f).getD []
+      let s := runApi v (Api.init lvl files0) opl en
+      let ids := apiFiles old opl
+      let fs := if ids.isEmpty then "." else ",".intercalate (ids.map fun i => s!"{i}:{encStr (s.files i)}")
+      let errs := (s.handlers.map fun hd => errorCount hd.st.out).foldl (· + ·) 0
+      s!"{fs} {s.raised} {s.handlers.length} {errs}"
+    | _, _, _, _, _ => "bad-op"
   | ["repr", b] =>
     match Hex.decode b with
     | some b => encStr (reprBytes b)
